@@ -232,6 +232,17 @@ def r9_emit_total(c, facts, rule='C04.R9'):
                 if pf is not None and pf.hir and pf.hir['params'] and (pf.d.get('sig_output') or '') == 'bool' and any('SchemaExpr' in (a.get('ty') or '') for a in (e['recv'].get('args') or [])):
                     it = Interp(facts, 'SchemaExpr')
                     some_sets[fn.id] = {v for v in allv if it.run_pred(pf, v) == TRUE}
+    # what is emitted in place of a reference (`maybe_inline`) is emitted again at every use: only kinds that cannot lead
+    # back to a reference may be inlined, or the emitter recurses without bound on a cycle of aliases (frozen: the atomic
+    # kinds named in the comment of maybe_inline - primitives, relations and URIs are emitted as leaves)
+    ATOMIC = {'Num', 'Str', 'Bool', 'Int', 'Rel', 'Uri'}
+    mi = facts.fn('oal_openapi::Builder::maybe_inline')
+    if mi is not None and mi.id in some_sets:
+        extra = some_sets[mi.id] - ATOMIC
+        if extra:
+            c.bad(R, 'maybe_inline:inlines-non-atomic:%s' % ','.join(sorted(extra)), 'maybe_inline inlines a reference whose value is %s: such a value can refer to other schemas, so emitting it in place at every use no longer terminates on a cycle (and a cycle of aliases is accepted by the checker)' % sorted(extra))
+        else:
+            c.ok(R, {'maybe_inline': 'inlines atomic kinds only', 'kinds': sorted(some_sets[mi.id])})
     # partiality propagates to a caller that hands its own parameter on without narrowing it (a dispatch split off into
     # a helper: `value_schema(s)` -> `expr_schema(&s.expr)`): the obligation then lies with that caller's callers
     passthrough = set()
